@@ -157,6 +157,7 @@ func runJobs(jobs []HarnessCfg, workers int) []HarnessResult {
 	for _, j := range jobs {
 		pkgset["./"+j.Pkg] = true
 	}
+	pkgset["./zz_verif_model"] = true
 	var pats []string
 	for p := range pkgset {
 		pats = append(pats, p)
